@@ -108,6 +108,23 @@ def run(run, replay=None):
                 t_.start()
             for t_ in ths:
                 t_.join(20)
+            # a registration immediately followed by a conversion on the SAME connection (no pause for the updater to be
+            # re-scheduled in): the handlers must not wait for a duty that needs a worker they occupy
+            import http.client as _hc
+            b2b_err = None
+            try:
+                conn = _hc.HTTPConnection("127.0.0.1", srv.port, timeout=6.0)
+                for j in range(40 if run.tier != "thorough" else 150):
+                    for m_, p_ in (("RegisterWord", {"kind": "CommonNoun", "reading": "てすと", "word": "連続%d" % j}),
+                                   ("GetCandidates", {"input": "てすと"})):
+                        conn.request("POST", "/", body=json.dumps({"jsonrpc": "2.0", "id": j, "method": m_, "params": p_}).encode(),
+                                     headers={"Content-Type": "application/json"})
+                        conn.getresponse().read()
+                conn.close()
+            except Exception as e_:        # a timeout here is the observation, not an infrastructure problem
+                b2b_err = "%s after %d back-to-back rounds" % (type(e_).__name__, j)
+            if b2b_err:
+                errs.append(b2b_err)
             probe = srv.conv("くるまで", timeout=5.0)
             srv.rpc("RegisterWord", {"kind": "CommonNoun", "reading": "てすと", "word": "多忙"}, timeout=5.0)
             saved = S.wait_until(lambda: os.path.exists(os.path.join(ud, "user.dic")) and
